@@ -37,6 +37,9 @@ func init() {
 			{ID: "C01.R15", Text: "a restart answered with a rollback still re-delivers everything above the checkpoint: the catch-up filter skips ⇔ need ∧ seq ≤ F and nothing else (same rule as C08.R5)", Run: c08r5},
 			{ID: "C01.R16", Text: "the store the checkpoint reaches is the one that was configured: no layer that is not a proven pass-through sits in front of a collaborator (same rules as C20.R19 and C20.R20)", Run: func(c *Ctx, id string) { decoratorsTransparent()(c, id); noNewLayers(c, id) }},
 			{ID: "C01.R17", Text: "an absorbed event never overtakes a document that is still on its way to the consumer: every handler hands its event on synchronously, in the order the server sent them (same rule as C03.R1)", Run: c03r1},
+			{ID: "C01.R19", Text: "the marks raised for the start positions and for settled events reach the next save: reading the stream changes nothing — the getters of the Stream interface store to no field, update no map and call no mutator, so a scrape or a state request between two saves cannot take the dirty marks away", Run: streamGettersArePure},
+			{ID: "C01.R20", Text: "a session resumes only from a position the vBucket has: Load stops the start ⇔ the stored seqNo is beyond the high seqNo of the same vBucket, whatever the bucket type — resuming from a position ahead of a re-created vBucket ends in a rollback whose catch-up window drops the new history up to the old checkpoint (same rule as C15.R1)", Run: c15r1},
+			{ID: "C01.R21", Text: "a group that starts at latest gets its start position saved: Load marks every vBucket whose current seqNo is not 0 for the next save and raises the save flag (evaluated whole: mark ∧ flag ⇔ seqNo ≠ 0; one store under the same key; fail-over log error ⇒ stop) — otherwise a restart before the first acknowledged save starts at a later latest, past delivered and unacknowledged events", Run: latestStartMarked},
 			{ID: "C01.R18", Text: "an event the listener never looked at cannot be settled, yet later acknowledgements carry the checkpoint past it: every path through the listener reaches the dispatch on the event type, and a document is forwarded under no predicate of the listener (same rule as C03.R2)", Run: c03r2},
 			{ID: "C01.R7", Text: "no store through a pointer to a field of models.Offset / models.SnapshotMarker outside the composite literal that allocates it", Run: immutableOffsets},
 		},
@@ -75,6 +78,12 @@ func c01r1(c *Ctx, id string) {
 		k, v := cc.Args[1], cc.Args[2]
 		kp, kok := unwrap(k).(*ssa.Parameter)
 		vp, vok := unwrap(v).(*ssa.Parameter)
+		if !(kok && vok) {
+			// … or the fields of the writer's parameter bundle
+			if in := w.writerInputs(m.Fn); in.vb != nil && in.off != nil && w.Origin(k) == in.vb.Term() && w.Origin(v) == in.off.Term() {
+				kp, vp, kok, vok = in.vb.P, in.off.P, true, true
+			}
+		}
 		if kok && vok && kp.Parent() == m.Fn && vp.Parent() == m.Fn {
 			c.OK(id, construct, m.Call.Pos(), "Store(key=%s, value=%s) on %s", w.Origin(k), w.Origin(v), w.Origin(m.Recv))
 		} else {
@@ -280,14 +289,7 @@ func c01r3(c *Ctx, id string) {
 		for _, cs := range w.callersOf(pw) {
 			cl := classifyWriterCall(w, cs)
 			cc := cs.Call.Common()
-			var vb, off ssa.Value
-			for _, a := range cc.Args[1:] {
-				if w.isOffsetPtr(a.Type()) {
-					off = a
-				} else if b, ok := a.Type().Underlying().(*types.Basic); ok && b.Kind() == types.Uint16 {
-					vb = a
-				}
-			}
+			vb, off, _ := w.writerArgs(cc, pw)
 			construct := "args:" + fname(pw) + "@" + fname(cs.Fn)
 			if vb == nil || off == nil {
 				c.Undecided(id, construct, cs.Call.Pos(), "cannot identify vbID/offset arguments")
@@ -358,6 +360,11 @@ func c01r3(c *Ctx, id string) {
 func isUint16(t types.Type) bool {
 	b, ok := t.Underlying().(*types.Basic)
 	return ok && b.Kind() == types.Uint16
+}
+
+func isInt(t types.Type) bool {
+	b, ok := t.Underlying().(*types.Basic)
+	return ok && b.Kind() == types.Int
 }
 
 func isParamOf(origin string, fn *ssa.Function) bool {
@@ -455,6 +462,57 @@ type saveDump struct {
 	update   *ssa.MapUpdate // dump[key] = doc
 	table    map[string]string
 	rangeRcv ssa.Value
+	valParam *ssa.Parameter // the parameter that stands for the ranged position in the table (the callback's, or a conversion callback's)
+}
+
+// valName is the name the table uses for the ranged position.
+func (sd *saveDump) valName() string {
+	if sd.valParam != nil {
+		return sd.valParam.Name()
+	}
+	return sd.closure.Params[1].Name()
+}
+
+// convertedValue: v is conv(ranged) where conv is a function parameter of the copying helper home; the result is what
+// the callback Save passes for conv returns for its own parameter (one return, one parameter).
+func convertedValue(v ssa.Value, ranged *ssa.Parameter, home *ssa.Function, homeCall *ssa.Call) (ssa.Value, *ssa.Parameter, bool) {
+	call, ok := unwrap(v).(*ssa.Call)
+	if !ok || homeCall == nil || call.Common().IsInvoke() || len(call.Common().Args) != 1 || unwrap(call.Common().Args[0]) != ssa.Value(ranged) {
+		return nil, nil, false
+	}
+	fv := unwrap(call.Common().Value)
+	if x, isFV := fv.(*ssa.FreeVar); isFV {
+		if b, ok := bindingOf(x); ok {
+			fv = unwrap(b)
+		}
+	}
+	fv = resolveCell(fv)
+	p, isP := fv.(*ssa.Parameter)
+	if !isP {
+		return nil, nil, false
+	}
+	for i, hp := range home.Params {
+		if hp != p || i >= len(homeCall.Common().Args) {
+			continue
+		}
+		cv := closureOf(homeCall.Common().Args[i])
+		if cv == nil || len(cv.Params) != 1 || len(cv.Blocks) == 0 {
+			return nil, nil, false
+		}
+		var ret ssa.Value
+		n := 0
+		allInstrs(cv, func(in ssa.Instruction) {
+			if r, isR := in.(*ssa.Return); isR && in.Parent() == cv && len(r.Results) == 1 {
+				n++
+				ret = r.Results[0]
+			}
+		})
+		if n != 1 {
+			return nil, nil, false
+		}
+		return ret, cv.Params[0], true
+	}
+	return nil, nil, false
 }
 
 // findSaveDump analyses a Checkpoint.Save implementation.
@@ -477,7 +535,7 @@ func findSaveDump(c *Ctx, id string, fn *ssa.Function) *saveDump {
 	var homeCall *ssa.Call
 	if _, ok := mm.(*ssa.MakeMap); !ok {
 		if call, isCall := mm.(*ssa.Call); isCall {
-			if h := call.Common().StaticCallee(); h != nil && w.inModule(h) && h.Pkg == fn.Pkg && len(h.Blocks) > 0 {
+			if h := call.Common().StaticCallee(); h != nil && w.inModule(h) && pkgPathOf(h) == pkgPathOf(fn) && len(h.Blocks) > 0 {
 				var built ssa.Value
 				nRet := 0
 				allInstrs(h, func(in ssa.Instruction) {
@@ -533,7 +591,14 @@ func findSaveDump(c *Ctx, id string, fn *ssa.Function) *saveDump {
 		c.Fail(id, "dump@"+fname(fn), sd.update.Pos(), "the dump is not populated by a Range callback over a position map")
 		return nil
 	}
-	lit, ok := w.litOf(sd.update.Value)
+	docv := sd.update.Value
+	if len(sd.closure.Params) == 2 {
+		if rv, vp, isConv := convertedValue(docv, sd.closure.Params[1], home, homeCall); isConv {
+			docv, sd.valParam = rv, vp
+			c.see(vp.Parent())
+		}
+	}
+	lit, ok := w.litOf(docv)
 	if !ok {
 		c.Fail(id, "dump@"+fname(fn), sd.update.Pos(), "dumped value is not a document literal (built in place or by a one-level helper): %s", w.Origin(sd.update.Value))
 		return nil
@@ -597,6 +662,9 @@ func c01r5(c *Ctx, id string) {
 			continue
 		}
 		kp, vp := sd.closure.Params[0], sd.closure.Params[1]
+		if sd.valParam != nil {
+			vp = sd.valParam
+		}
 		ko := w.Origin(sd.update.Key)
 		c.Check(ko == "param("+kp.Name()+")", id, "key@"+fname(fn), sd.update.Pos(),
 			"dump key ← "+ko, "dump key ← "+ko+", expected the ranged key param("+kp.Name()+")")
@@ -643,7 +711,7 @@ func c01r6(c *Ctx, id string) {
 					switch {
 					case root == fn && org == "param("+fn.Params[1].Name()+")":
 						c.OK(id, construct, in.Pos(), "marshals the whole state parameter %s", org)
-					case root != fn && isParamOf(org, root):
+					case root != fn && isVParamOf(org, root):
 						// helper: check key derivation and call-site consistency
 						c01r6helper(c, id, fn, root, org, in)
 					default:
@@ -687,13 +755,14 @@ func dedupFns(in []*ssa.Function) []*ssa.Function {
 func c01r6helper(c *Ctx, id string, save, helper *ssa.Function, docOrigin string, marshal ssa.Instruction) {
 	w := c.W
 	c.see(helper)
-	var pVb, pDoc *ssa.Parameter
-	for _, p := range helper.Params {
+	var pVb, pDoc *vparam
+	for _, p := range vparams(helper) {
+		p := p
 		if isUint16(p.Type()) {
-			pVb = p
+			pVb = &p
 		}
-		if "param("+p.Name()+")" == docOrigin {
-			pDoc = p
+		if p.Term() == docOrigin {
+			pDoc = &p
 		}
 	}
 	if pVb == nil || pDoc == nil {
@@ -719,7 +788,7 @@ func c01r6helper(c *Ctx, id string, save, helper *ssa.Function, docOrigin string
 			}
 			nID++
 			org := w.Origin(idArg)
-			want := "call(couchbase.getCheckpointID)(param(" + pVb.Name() + "),"
+			want := "call(couchbase.getCheckpointID)(" + pVb.Term() + ","
 			if strings.HasPrefix(org, want) {
 				c.OK(id, "docid:"+sf.Name()+"@"+fname(helper), in.Pos(), "id ← %s", org)
 			} else {
@@ -733,16 +802,17 @@ func c01r6helper(c *Ctx, id string, save, helper *ssa.Function, docOrigin string
 	// call sites in the backend
 	for _, cs := range w.callersOf(helper) {
 		cc := cs.Call.Common()
-		k := w.Origin(argOfParam(cc, helper, pVb))
-		d := w.Origin(argOfParam(cc, helper, pDoc))
+		ka, da := argOfVParam(cc, helper, *pVb), argOfVParam(cc, helper, *pDoc)
+		k := w.Origin(ka)
+		d := w.Origin(da)
 		stateP := ""
 		if rootFn(cs.Fn) == save && len(save.Params) > 1 {
 			stateP = "param(" + save.Params[1].Name() + ")"
 		}
 		// (k, v) of one iteration step of `range state` is the same pairing as (k, state[k])
 		samePair := false
-		if ek, ok := unwrap(argOfParam(cc, helper, pVb)).(*ssa.Extract); ok && ek.Index == 1 {
-			if ed, ok := unwrap(argOfParam(cc, helper, pDoc)).(*ssa.Extract); ok && ed.Index == 2 && ed.Tuple == ek.Tuple {
+		if ek, ok := unwrap(ka).(*ssa.Extract); ok && ka != nil && ek.Index == 1 {
+			if ed, ok := unwrap(da).(*ssa.Extract); ok && da != nil && ed.Index == 2 && ed.Tuple == ek.Tuple {
 				samePair = stateP != "" && w.Origin(ek.Tuple) == "next(range("+stateP+"))"
 			}
 		}
@@ -839,6 +909,9 @@ func noRetainedPositionMap(c *Ctx, id string) {
 			n++
 			if owner[f] {
 				return
+			}
+			if _, isCarrier := w.carrierField(f); isCarrier {
+				return // a carrier lives as long as the call it was built for (its address goes nowhere else): nothing is retained
 			}
 			bad++
 			c.Fail(id, "retained:"+f.Name()+"@"+fname(fn), st.Pos(), "a reference to the position map is kept in field %s (← %s): after the next rebalance it is the discarded map, and the values exposed from it freeze", f.Name(), w.Origin(st.Val))
